@@ -7,7 +7,10 @@ from .units_map import sparse_of_pint
 # call forms of the one-argument catalogue entries: name -> (numpy function name, args, kwargs)
 FORMS = {"sum_axis0": ("sum", (), {"axis": 0}), "mean_axis1k": ("mean", (), {"axis": 1, "keepdims": True}), "sum_axis_pos": ("sum", (1,), {}),
          "amax_axis0": ("amax", (), {"axis": 0}), "cumsum_axis1": ("cumsum", (), {"axis": 1}), "sort_axis0": ("sort", (), {"axis": 0}),
-         "std_axis0": ("std", (), {"axis": 0}), "round": ("round", (), {}), "roll": ("roll", (1,), {}), "diff": ("diff", (), {}), "ptp": ("ptp", (), {})}
+         "std_axis0": ("std", (), {"axis": 0}),
+         # a keyword given explicitly with its "nothing" value: out=None is no target, axis=None is the flattened array
+         "sum_outn": ("sum", (), {"out": None}), "amax_axis0_outn": ("amax", (), {"axis": 0, "out": None}), "sort_axisn": ("sort", (), {"axis": None}),
+         "mean_axisn": ("mean", (), {"axis": None}), "round": ("round", (), {}), "roll": ("roll", (1,), {}), "diff": ("diff", (), {}), "ptp": ("ptp", (), {})}
 
 
 def run_np_case(rec, k):
